@@ -644,6 +644,13 @@ Theorem C06_json_float_layout_reads :
 Proof. exact fmt_json_reads. Qed.
 Print Assumptions C06_json_float_layout_reads.
 
+(* ... and the digit string of the shortest-digits search is that of a positive integer (no sign, no leading zero),
+   so the text of EVERY float json.Marshal has a text for is ONE number of RFC 8259, read completely *)
+Theorem C06_json_float_is_number :
+  forall x s rest, fl_to_json x = Some s -> stop_num rest -> exists v, json_number (s ++ rest) = Some (v, rest).
+Proof. exact fl_to_json_reads. Qed.
+Print Assumptions C06_json_float_is_number.
+
 Example C06_ex_json_float_layouts :
   fl_to_json (FFin 1 70) = Some (b "1.1805916207174113e+21") /\ fl_to_json (FFin 5 (-1)) = Some (b "2.5") /\
   fl_to_json (FFin 1 (-20)) = Some (b "9.5367431640625e-7") /\ fl_to_json (FFin 25 2) = Some (b "100").
